@@ -182,6 +182,8 @@ def run(c, chk):
         if p.end != 'ret' or p.retval in (sym.C0, None):
             continue
         v = p.retval
+        if any((lambda na: na is not None and na[0] == v and na[1])(fp.is_null_assumption(cn, t)) for cn, t, _ in p.assume):
+            continue          # the value returned is the NULL of a failed allocation (returned through the variable)
         ev = next((e for e in p.events if e.kind == 'call' and e.res == v), None)
         if ev is None:
             okexp = False
